@@ -1024,6 +1024,10 @@ namespace bluetoe {
 
         const std::size_t end_index = end_handle_index( ending_handle );
 
+        // no attribute within the range
+        if ( start_index >= end_index )
+            return error_response( *input, details::att_error_codes::attribute_not_found, starting_handle, output, out_size );
+
         std::uint8_t*        write_ptr = &output[ 0 ];
         std::uint8_t* const  write_end = write_ptr + out_size;
 
